@@ -10,10 +10,14 @@
 //	each   every type code with boundary-biased random payloads, one value per history
 //	shape  hand-picked shapes at the boundaries of the count and length fields, wide
 //	       maps whose keys collide in the backing hash table, deep chains
+//	counts every counted type (arrays, list, maps) with its count at and around every power
+//	       of two up to the count cell's maximum (counts.go)
 //	deep   chains of 64 .. 20000 containers, logged by their spine (deep.go)
 //	rand   random streams of 1..3 values of depth <= 8
 //	mutenum, mut   ONE value object written, changed through the public mutators (on
 //	       itself or on a child obtained from it) and written again (obj.go)
+//	lookenum       the same object with every public READ-ONLY method called between the
+//	       writes (look.go); gen mut mixes such calls with the mutators
 package c02
 
 import (
@@ -368,6 +372,9 @@ func Run(c *core.Ctx) error {
 		}
 	}
 
+	// ---- counts: element counts at every power of two up to the count cell's maximum (counts.go)
+	runCounts(c)
+
 	// ---- deep: chains of 64 .. 20000 containers ---------------------------------
 	if c.WantGen("deep") {
 		td := c.Trace("c02_deep", "Trace_Value") // a trace (and a TLC) of its own: the spines are long
@@ -423,6 +430,10 @@ func Run(c *core.Ctx) error {
 		if c.WantGen("mut") {
 			mutRand(c, to)
 		}
+	}
+	// ---- lookenum: one object written, ONE read-only call, written again (look.go) ----
+	if c.WantGen("lookenum") {
+		lookEnum(c, c.Trace("c02_look", "Trace_ValueObj"))
 	}
 	return nil
 }
